@@ -36,7 +36,7 @@ def g_project(draw):
     sigma = ubm["variances"] * np.exp(r.uniform(-1, 1, (C, F)))
     items = [gen.fractional_stats(draw, C, F, ubm["means"], ubm["variances"], r=r, zero_prob=gen.choice(draw, [0.0, 0.3]))
              for _ in range(gen.integer(draw, 1, 4))]
-    return {"ubm": ubm, "T": T, "sigma": sigma, "items": items}
+    return {"ubm": ubm, "T": T, "sigma": sigma, "items": items, "stats_layout": gen.choice(draw, ["C", "C", "F", "strided"])}
 
 
 @REG.obligation("project_is_posterior_mean", g_project, quick=600, thorough=12000)
@@ -50,7 +50,7 @@ def c_project(ctx, case):
     m.T = np.array(case["T"])
     m.sigma = np.array(case["sigma"])
     m.dim_c, m.dim_d = p["C"], p["F"]
-    stats = [sut.make_stats(s) for s in case["items"]]
+    stats = [sut.make_stats(s, layout=case.get("stats_layout", "C")) for s in case["items"]]
     R = case["T"].shape[2]
     ctx.note(R >= 2 and p["C"] >= 2, "dim_t=%d" % R)
     outs = m.transform(stats)
@@ -65,6 +65,19 @@ def c_project(ctx, case):
         ctx.check(np.abs(res).max() <= 1e-8 * (np.abs(b).max() + np.abs(L).max() * sc + 1e-300),
                   "posterior normal equations not satisfied (residual %.3g)" % np.abs(res).max(), "residual")
         ctx.close(np.asarray(o, float), got, "transform item == project", rtol=0, atol=0)
+    # the machine must follow later assignments of T / sigma (no stale projection matrices)
+    T2 = np.array(case["T"]) * 1.7 + 0.1 * np.sqrt(p["variances"])[:, :, None]
+    sig2 = np.array(case["sigma"]) * 0.4
+    for change in ("sigma", "T"):
+        if change == "sigma":
+            m.sigma = sig2
+        else:
+            m.T = T2
+        curT, curS = np.asarray(m.T, float), np.asarray(m.sigma, float)
+        for s_, st_ in zip(case["items"], stats):
+            w_, _, _ = ref.ivec_posterior(s_["n"], s_["sum_px"], curT, curS, p["means"])
+            ctx.close(np.asarray(m.project(st_), float), w_, "i-vector after %s was re-assigned" % change, rtol=1e-7,
+                      atol=1e-9 * (np.abs(w_).max() + 1e-300))
     zero = sut.make_stats({"t": 0, "n": np.zeros(p["C"]), "sum_px": np.zeros((p["C"], p["F"])),
                            "sum_pxx": np.zeros((p["C"], p["F"]))})
     ctx.close(np.asarray(m.project(zero), float), np.zeros(R), "i-vector of empty statistics", rtol=0, atol=0)
